@@ -30,6 +30,7 @@ func (c Config) parseTokens(tokens []Token) (ASTNode, Error) { //nolint: gocyclo
 		bn        *ASTBlock        // current block node
 		stack     []frame          // stack of blocks
 		rawTag    *ASTRaw          // current raw tag
+		openTok   Token            // the {% comment %} or {% raw %} tag that is currently open
 		inComment = false
 		inRaw     = false
 	)
@@ -64,8 +65,10 @@ func (c Config) parseTokens(tokens []Token) (ASTNode, Error) { //nolint: gocyclo
 				switch {
 				case tok.Name == "comment":
 					inComment = true
+					openTok = tok
 				case tok.Name == "raw":
 					inRaw = true
+					openTok = tok
 					rawTag = &ASTRaw{}
 					*ap = append(*ap, rawTag)
 				case cs.RequiresParent() && (sd == nil || !cs.CanHaveParent(sd)):
@@ -104,6 +107,9 @@ func (c Config) parseTokens(tokens []Token) (ASTNode, Error) { //nolint: gocyclo
 		case tok.Type == TrimRightTokenType:
 			*ap = append(*ap, &ASTTrim{TrimDirection: Right})
 		}
+	}
+	if inComment || inRaw {
+		return nil, Errorf(openTok, "unterminated %q block", openTok.Name)
 	}
 	if bn != nil {
 		return nil, Errorf(bn, "unterminated %q block", bn.Name)
